@@ -196,7 +196,9 @@ func (ph *ptraceHandle) handle(pid int, wstatus unix.WaitStatus) (status runner.
 			ph.traced[pid] = true
 			verifPoint("tracer.firststop")
 			// Ptrace set option valid if the tracee is stopped
-			if err := setPtraceOption(pid); err != nil {
+			// ESRCH: the tracee was killed while it sat in this stop (by SIGKILL from a
+			// sibling or by the exit of its thread group); wait4 will report its death
+			if err := setPtraceOption(pid); err != nil && err != unix.ESRCH {
 				verifEvent("setopt", "pid", pid, "err", verifErr(err))
 				status = runner.StatusRunnerError
 				errStr = err.Error()
